@@ -246,7 +246,7 @@ impl Property for C17 {
          oracle = the abstract model: matching by name, exact polynomials with every file number expected verbatim (nearest double; one rounding allowed only for the computed end of a ranged row), value domains; non-trivial = >=2 row types and >=2 distinct bound specs, or an error case; distinct = sha256(file text)"
     }
     fn required_labels(&self) -> Vec<String> {
-        let mut v: Vec<String> = ["row=E", "row=L", "row=G", "range+@E", "range-@E", "range+@L", "range-@L", "range+@G", "range-@G", "5-field", "objsense-own-line", "objsense-absent", "foreign-objective-name", "obj-constant", "gzip", "tabs", "comments", "integer-marker", "objsense-gap", "row-named-like-range-twin", "numeric-looking-column-name", "numeric-looking-row-name", "explicit-zero-entry", "column-with-only-zero-entries", "comments-that-look-like-content", "gzip-header-with-optional-fields", "ranged-row-with-decimal-numbers", "row-named-MARKER", "row-named-like-a-keyword", "column-named-like-a-keyword"].iter().map(|s| s.to_string()).collect();
+        let mut v: Vec<String> = ["row=E", "row=L", "row=G", "range+@E", "range-@E", "range+@L", "range-@L", "range+@G", "range-@G", "5-field", "objsense-own-line", "objsense-absent", "foreign-objective-name", "obj-constant", "gzip", "tabs", "comments", "integer-marker", "objsense-gap", "row-named-like-range-twin", "numeric-looking-column-name", "numeric-looking-row-name", "explicit-zero-entry", "column-with-only-zero-entries", "comments-that-look-like-content", "gzip-header-with-optional-fields", "ranged-row-with-decimal-numbers", "row-named-MARKER", "row-named-like-a-keyword", "column-named-like-a-keyword", "name-starting-with-a-star", "vector-names-starting-with-a-star"].iter().map(|s| s.to_string()).collect();
         for b in ["none", "UP", "UP-negative", "LO", "LO+UP", "FX", "MI", "PL", "FR", "BV", "LI", "UI", "MI+UP"] {
             v.push(format!("bound={b}"));
         }
